@@ -86,6 +86,19 @@ fn main() {
             println!("digest {:016x} ontologies {} nontrivial {}", out.digest, out.ontologies, out.nontrivial);
             ctx.cleanup();
         }
+        "realfiles" => {
+            for big in [false, true] {
+                for f in facts::real_files(big) {
+                    let t = std::time::Instant::now();
+                    let o = hpo::Ontology::from_bytes(&f.bytes).map(|o| obs::observe(&o));
+                    let t1 = t.elapsed();
+                    let m = model::obs_of(&f.facts, true);
+                    let t2 = t.elapsed();
+                    let d = o.as_ref().map(|o| obs::diff(&m, o, obs::IcCmp::Ulp).len());
+                    println!("{} v{} {} bytes: {} terms {} links {} genes {} omim {} orpha; load+observe {:?}, model {:?}, diffs {:?}", f.name, f.version, f.bytes.len(), f.facts.terms.len(), f.facts.isa.len(), f.facts.genes.len(), f.facts.omim.len(), f.facts.orpha.len(), t1, t2 - t1, d);
+                }
+            }
+        }
         "show" => {
             let s = props::generate(&args[1], args[2].parse().unwrap(), args[3].parse().unwrap(), args.get(4).map_or(false, |t| t == "thorough"));
             println!("{}", serde_json::to_string_pretty(&s).unwrap());
